@@ -347,6 +347,24 @@ def r4(ctx):
         raise AnalysisError("no CLOSE path of read() reaches on_close")
 
 
+@rule("R-C14-9", min_instances=2, title="teardown cannot be derailed by the close frame's content: extracting (code, reason) never raises, whatever bytes the server put in the reason (validation may be switched off)")
+def r9(ctx):
+    from .c17 import hostile
+    idx = ctx.index
+    q = f"{APP}._get_close_args"
+    loc = idx.loc(idx.func(q).node)
+    I = Interp(idx, Config(stubs=sock_stubs(), may_raise=hostile()))
+    for on_close in (True, False):
+        def body(run, on_close=on_close):
+            app = mk_app(I, run, {"on_close": on_close})
+            return I.call(run, I.getattr(run, app, "_get_close_args", None), [_close_frame(run)], {}, None)
+        outs = ctx.count_paths(I.explore(body))
+        bad = [o for o in outs if o.kind == "raise"]
+        ctx.ob(f"{q}:never-raises:on_close={on_close}", not bad and bool(outs), f"{len(outs)} paths return" if not bad else
+               f"_get_close_args raises {bad[0].exc_class} for a close frame whose reason is not UTF-8 (possible with skip_utf8_validation=True): it runs inside teardown() after the "
+               f"once-only flag is set and before on_close, so on_close is never called and the socket reference is kept", (bad[0].raise_loc if bad else "") or loc, {"path": path_text(bad[0])} if bad else None)
+
+
 @rule("R-C14-5", min_instances=4, title="result flag: a close frame or the application's close() is not an error; flags are reset at the start of every run")
 def r5(ctx):
     loc = ctx.index.loc(ctx.index.func(RF).node)
